@@ -39,7 +39,7 @@ RunTags ==
   \cup (IF e.kind \notin {"id", "neg"} THEN {<<"C14", "fabs-not-absolute-value">>} ELSE {})
 TRun == e.op = "run" /\ nextKey' = e.hi + 1 /\ UNCHANGED <<sawNan, lastR, lastF>> /\ Step(RunTags)
 TNan == e.op = "nan" /\ sawNan' = TRUE /\ UNCHANGED <<nextKey, lastR, lastF>>
-        /\ Step(IF e.bad # 0 THEN {<<"C14", "fabs-of-nan">>} ELSE {})
+        /\ Step({})      \* the absolute value of a NaN is not specified
 TEnd == e.op = "end" /\ UNCHANGED <<nextKey, sawNan, lastR, lastF>>
         /\ Step(IF nextKey # KeyInf + 1 \/ ~sawNan THEN {<<"C14", "fabs-sweep-incomplete">>} ELSE {})
 
